@@ -135,9 +135,9 @@ Proof.
 Qed.
 
 (* ------------------------------------------------------------------ reads through the real path *)
-Lemma wf_dok_ok sh fill (st : state Z) : sh <> [] -> zwf fill sh st -> dok_ok Z sh st.
+Lemma wf_dok_ok sh fill (st : state Z) : zwf fill sh st -> dok_ok Z sh st.
 Proof.
-  intros Hsh (Hs & Hr & _). split; [apply sorted_nodup; exact Hs|]. split; [exact Hr|left; exact Hsh].
+  intros (Hs & Hr & _). split; [apply sorted_nodup; exact Hs|exact Hr].
 Qed.
 
 Lemma den_dok_as_coo sh fill (st : state Z) ix :
@@ -148,7 +148,7 @@ Qed.
 
 Theorem dok_real_read_proof (kf : nat -> nat) sh fill (st : state Z) (ix : index) :
   shape_ok sh -> sh <> [] -> zwf fill sh st ->
-  no_zero_step ix = true -> coo_ix_ok sh ix -> all_arrays_of ix = None ->
+  no_zero_step ix = true -> coo_ix_ok sh ix -> fancy_key ix = false ->
   match np_index sh ix with
   | Raise e => real_getitem kf sh fill st ix = Raise e /\ e = IndexError
   | Ok (sh', g) =>
@@ -163,7 +163,7 @@ Theorem dok_real_read_proof (kf : nat -> nat) sh fill (st : state Z) (ix : index
 Proof.
   intros Hok Hsh Hw Hz Hix Harr.
   pose proof (dok_getitem_den_proof Z Z.eqb Z.add kf sh st fill ix
-                (wf_dok_ok sh fill st Hsh Hw) (shape_okb_ok sh Hok) Hz Hix Harr) as H.
+                (wf_dok_ok sh fill st Hw) (shape_okb_ok sh Hok) Hz Hix Harr) as H.
   unfold real_getitem.
   destruct (np_index sh ix) as [[sh' g]|e]; [|exact H].
   destruct (dok_getitem Z Z.eqb Z.add kf sh st fill ix) as [[v|sh'' it' f']|]; [| |exact H].
@@ -175,7 +175,7 @@ Qed.
 (* after any in-domain history: the real read returns NumPy's x[ix] of NumPy's array *)
 Theorem dok_real_read_after_proof (kf : nat -> nat) dt sh fill ops (ix : index) :
   shape_ok sh -> sh <> [] -> dtype_ok dt = true -> forallb (hop_dom dt sh) ops = true ->
-  no_zero_step ix = true -> coo_ix_ok sh ix -> all_arrays_of ix = None ->
+  no_zero_step ix = true -> coo_ix_ok sh ix -> fancy_key ix = false ->
   match np_index sh ix with
   | Raise e => real_getitem kf sh fill (hrun dt sh fill ops) ix = Raise e /\ e = IndexError
   | Ok (sh', g) =>
@@ -212,7 +212,7 @@ Proof.
   intros Hok Hsh Hdt Hdom Hf.
   pose proof (dok_wf_ext_proof dt sh fill ops Hok Hdt Hdom) as Hw.
   destruct (dok_fancy_getitem_den_proof Z Z.eqb Z.add kf sh (hrun dt sh fill ops) fill ls n
-              (wf_dok_ok sh fill _ Hsh Hw) Hf) as (g & it' & H1 & H2 & _ & _ & H5).
+              (wf_dok_ok sh fill _ Hw) (shape_okb_ok sh Hok) Hf) as (g & it' & H1 & H2 & _ & _ & H5).
   exists g, it'. split; [exact H1|]. split; [exact H2|].
   intros j Hj. rewrite (H5 j Hj). rewrite den_dok_as_coo by exact Hw.
   apply (dok_refines_dense_ext_proof dt sh fill ops Hok Hdt Hdom).
